@@ -24,7 +24,7 @@ pub static DEF: PropDef = PropDef {
     level: "exploration",
     engine: "query",
     rule: "one run = a store populated through the real ingester, a real QueryNode behind the real axum router (POST and GET /api/v1/sql, Prometheus instant-query endpoint) called in-process, plus the direct entry points QueryNode::query, QueryEngine::prepare and QueryEngine::analyze (the Flight SQL paths) and the streaming entry point; 8..16 statements generated from a grammar over what the embedded engine parses (COPY .. TO, CREATE [EXTERNAL] TABLE / VIEW, CREATE TABLE AS, DROP TABLE / VIEW incl. metrics, INSERT, SET, EXPLAIN [ANALYZE] of those, multi-statement strings, plain SELECT / EXPLAIN SELECT / SHOW as controls) with target locations drawn from fresh paths, existing chunk paths and the catalog object; after every statement: the query node's store handle issued no mutating request, the full object listing (path, size, ETag) is unchanged, a fixed probe query returns the same answer, and a mutating statement returned an error; distinct = distinct (statement text, entry point) hash; non-trivial = a mutating statement was submitted",
-    quick_runs: 250,
+    quick_runs: 800,
     thorough_runs: 6000,
     run_cap_ms: 120_000,
     scen,
